@@ -31,6 +31,8 @@ def _standin_fault(exc):
     """True when `exc` was caused by the stand-in's incompleteness rather than by the library."""
     if isinstance(exc, (Hang, WorkerDeath)):
         return False
+    if isinstance(exc, ValueError) and "is closed" in str(exc):
+        return False                       # a modelled behaviour: put() on a queue the monitor closed
     if "Fake" in repr(exc) or "_Sentinel" in repr(exc):
         return True
     tb = exc.__traceback__
@@ -244,12 +246,12 @@ class FakeQueue:
 
     def put(self, x, *a, **k):
         if self.closed:
-            raise ValueError("Queue %r is closed" % self)
+            raise ValueError("Queue %s is closed" % ("<items>" if self.is_items else "<log>"))
         s = self.sched
         s.me().why = "put"
         s.yield_point(lambda: self.closed or self.maxsize <= 0 or len(self.items) < self.maxsize)
         if self.closed:
-            raise ValueError("Queue %r is closed" % self)
+            raise ValueError("Queue %s is closed" % ("<items>" if self.is_items else "<log>"))
         self.items.append(x)
 
     def _granted(self, t):
